@@ -72,6 +72,7 @@ type WorldOpts struct {
 	NAcc, NVal int
 	Balance    sdk.Coins                            // per account
 	SudoAccs   []int                                // accounts given role 1 (sudo)
+	Fresh      map[int]bool                         // account indexes that get a key but no genesis account and no coins
 	MutGenesis func(w *World, gs simapp.GenesisState) // last-minute genesis edits
 	T0         time.Time
 	// CommitDelay: deliver the consensus engine's real timing of validator-set changes (see World.delay)
@@ -116,6 +117,9 @@ func NewWorld(o WorldOpts) *World {
 		a := sdk.AccAddress(p.PubKey().Address())
 		w.privs = append(w.privs, p)
 		w.addrs = append(w.addrs, a)
+		if o.Fresh[i] {
+			continue // a key without an account and without coins at genesis (a possible target of a recovery rotation)
+		}
 		genAccs = append(genAccs, authtypes.NewBaseAccountWithAddress(a))
 		balances = append(balances, banktypes.Balance{Address: a.String(), Coins: o.Balance})
 		total = total.Add(o.Balance...)
